@@ -445,15 +445,33 @@ def codec_pairs(rep, wm):
             rep.fail("codec-pairs", mod.split("::")[-1], "codec module %s lacks one direction" % mod)
             continue
         Sa, Sb = Session(prog), Session(prog)
-        Sa.eval(fns["serialize"])
-        Sb.eval(fns["deserialize"])
-        fw = sorted(q.rsplit("::", 1)[0] for q in Sa.eng.unknown_calls if q.endswith("::serialize"))
-        fr = sorted(q.rsplit("::", 1)[0] for q in Sb.eng.unknown_calls if q.endswith("::deserialize"))
-        if len(fw) == 1 and fw == fr:
+        wv = Sa.eval(fns["serialize"])
+        rv = Sb.eval(fns["deserialize"])
+
+        def frame(q):
+            q = q.rsplit("::", 1)[0]
+            return "serde(plain)" if q in ("_::_serde::Serialize", "_::_serde::Deserialize") else q
+        fw = sorted(frame(q) for q in Sa.eng.unknown_calls if q.endswith("::serialize"))
+        fr = sorted(frame(q) for q in Sb.eng.unknown_calls if q.endswith("::deserialize"))
+        # lossless pair: the writer hands the value itself (not a function of it) to the foreign codec, and the reader
+        # returns the decoded value itself (possibly boxed) - anything else (re-encoding, reduction, truncation) may
+        # not round-trip and is not accepted without an identity proof
+        w_id = wv is not None and wv[0] == "call" and len(wv[2]) == 2 and strip_r(wv[2][0]) in (("arg", 1),)
+        r_id = False
+        if rv is not None:
+            okp = Sb.eng.proj_field(("down", rv, 0), 0)
+            while okp is not None and okp[0] in ("box", "copied", "refv"):
+                okp = okp[1]
+            r_id = okp is not None and (
+                (okp[0] == "vfield" and okp[1][0] == "call" and okp[1][1].endswith("::deserialize") and okp[2] == 0) or
+                (okp[0] == "field" and okp[1][0] == "down" and okp[1][1][0] == "call" and okp[1][1][1].endswith("::deserialize")))
+        if len(fw) == 1 and fw == fr and w_id and r_id:
             analysed.add(key)
-            rep.ok("codec-pairs", mod.split("::")[-1], sample="both directions forward to %s" % fw[0])
+            rep.ok("codec-pairs", mod.split("::")[-1], sample="both directions forward the value unchanged to %s" % fw[0])
         else:
-            rep.fail("codec-pairs", mod.split("::")[-1], "codec module %s: writer forwards to %s, reader to %s" % (mod, fw, fr), site=fns["serialize"].loc())
+            rep.fail("codec-pairs", mod.split("::")[-1], "codec module %s is not a plain forwarding pair (writer passes %s to %s, reader returns %s from %s): the stored value is transformed on the way and is not shown to come back unchanged" % (
+                mod, Sa.show(wv[2][0])[:120] if wv is not None and wv[0] == "call" and wv[2] else Sa.show(wv)[:120] if wv is not None else None, fw,
+                Sb.show(rv)[:160] if rv is not None else None, fr), site=fns["serialize"].loc())
     # every `with` codec named by a wire model is analysed (generic element codec `G` = one of the leaf impls by the sealed bounds)
     used = set()
     for adt, m in wm.items():
